@@ -160,6 +160,32 @@
         crate::vcover!(b == n as u64 && footer_ok);
         core::mem::forget(r);
     }
+    /// diagnostic variant (parked): empty index, concrete check type, only the Ok arm continues
+    #[kani::proof]
+    #[kani::unwind(30)]
+    //@ERR
+    fn c04_xz_index_footer_count_ok_n0_crc32() {
+        let recs: [(u64, u64); 2] = [(0, 0); 2];
+        let mut ibuf = [0u8; 64];
+        let ilen = spec_index(&mut ibuf, 0, &recs, 1, 1);
+        let footer: [u8; 12] = vk::any();
+        let mut buf = [0u8; 28];
+        let mut i = 1;
+        while i < ilen { buf[i - 1] = ibuf[i]; i += 1; }
+        let mut j = 0;
+        while j < 12 { buf[ilen - 1 + j] = footer[j]; j += 1; }
+        let b: u64 = vk::any();
+        let mut r = XZReader::new(vk::Src::<28>::new(buf, ilen - 1 + 12), false);
+        r.stream_header = Some(StreamHeader { check_type: CheckType::Crc32 });
+        r.blocks_processed = b;
+        let res = r.parse_index_and_footer();
+        vk::assume(res.is_ok());
+        assert!(b == 0);
+        assert!(footer[8] == 0 && footer[9] == 1 && footer[10] == b'Y' && footer[11] == b'Z');
+        crate::vcover!(true);
+        core::mem::forget(res);
+        core::mem::forget(r);
+    }
     #[kani::proof]
     #[kani::unwind(30)]
     //@ERR
